@@ -140,6 +140,18 @@ def run(ctx, ck) -> None:
                   'P H != P', instance=f'kind {L} absorption', nontrivial=False)
     ck.floor('Q2', n, 4, 'Stokes kinds')
 
+    # ------------------------------------------------------------------ Q10 P^T P is the hit-count diagonal on every Stokes component only if the
+    # transposed rotation is the inverse rotation (R^T R = I for all angles): shared with C15.M4 / M6
+    from . import c15 as _c15
+
+    _sub15 = type(ck)(ck.pid)
+    _c15.run(ctx, _sub15)
+    for _o in _sub15.obs:
+        if _o.rule.endswith('M4') or (_o.rule.endswith('M6') and 'orthogonality' in _o.construct):
+            _o.rule = f'{ck.pid}.Q10'
+            ck.obs.append(_o)
+    ck.floor('Q10', sum(1 for o in ck.obs if o.rule.endswith('Q10')), 8, 'transposed-rotation identities')
+
     # ------------------------------------------------------------------ Q3 rotation literal
     interp = pol.interp
     al, be, ga = angle('phi'), angle('theta'), angle('pa')
